@@ -21,7 +21,8 @@ fn doc_of(i: usize, size_class: usize) -> V {
 		0 => 0,
 		1 => 80,
 		2 => 5 * 1024,
-		_ => 20 * 1024,
+		3 => 20 * 1024,
+		n => n, // an explicit padding length (size ladder)
 	};
 	V::map(vec![("i", V::Int(i as i128)), ("p", V::Str("z".repeat(pad)))])
 }
@@ -302,21 +303,31 @@ pub fn run(ctx: &Ctx) -> CheckOutput {
 	let thorough = ctx.thorough();
 	// ---- lag
 	let mut lag_jobs: Vec<(LagCase, usize, Option<usize>)> = vec![];
-	let shapes: Vec<(Vec<usize>, &str)> = vec![
-		(vec![0; 6], "6x8B"),
-		(vec![1; 8], "8x100B"),
-		(vec![2; 5], "5x5KiB"),
-		(vec![3; 4], "4x20KiB"),
-		(vec![0, 2, 1, 3, 0, 1, 2, 0, 3, 1], "10-mixed"),
-		(vec![0; 12], "12x8B"),
-		(vec![1, 0, 0, 1, 0, 0, 1], "7-small"),
+	let mut shapes: Vec<(Vec<usize>, String)> = vec![
+		(vec![0; 6], "6x8B".into()),
+		(vec![1; 8], "8x100B".into()),
+		(vec![2; 5], "5x5KiB".into()),
+		(vec![3; 4], "4x20KiB".into()),
+		(vec![0, 2, 1, 3, 0, 1, 2, 0, 3, 1], "10-mixed".into()),
+		(vec![0; 12], "12x8B".into()),
+		(vec![1, 0, 0, 1, 0, 0, 1], "7-small".into()),
 	];
+	// one large document (every ladder size) in first or second position among small ones: whatever
+	// look-ahead detection or a parser does for the large one must not hold back the small ones
+	for &size in &crate::gen::size_ladder(thorough) {
+		let mut first = vec![size];
+		first.extend([0usize; 14]);
+		shapes.push((first, format!("{size}B-then-14x8B")));
+		let mut second = vec![1, size];
+		second.extend([0usize; 12]);
+		shapes.push((second, format!("100B-{size}B-then-12x8B")));
+	}
 	for src in F::STREAMING {
 		for to in F::STREAMING {
 			for detect in [false, true] {
 				for (sizes, label) in &shapes {
 					for cuts_kind in 0..8 {
-						if !thorough && cuts_kind == 5 && sizes.iter().any(|&s| s >= 2) {
+						if (!thorough || sizes.len() == 15) && cuts_kind == 5 && sizes.iter().any(|&s| s >= 2) {
 							continue; // single-byte packets over large documents: thorough only
 						}
 						lag_jobs.push((LagCase { src, to, detect, sizes: sizes.clone(), label: label.to_string() }, cuts_kind, None));
@@ -391,7 +402,7 @@ pub fn run(ctx: &Ctx) -> CheckOutput {
 	CheckOutput {
 		level: "model_checking",
 		tally,
-		rule: format!("lag: streams of 4-12 documents (8 B, 100 B, 5 KiB, 20 KiB, mixed) in JSON / MessagePack / YAML, source named and detected, every streaming target, 8 packetisations (1, 2, 3 documents per read; all-but-3-bytes; half documents; 7-byte, 100-byte and single-byte packets) and, for the small streams, every read schedule with <= {} deviation(s); a monitor runs at EVERY read() call: with j documents fully delivered, the complete translations of documents 1..j-2 must already have been handed to the writer. memory: streams generated on demand (period-P cycles of documents up to 20 KiB, YAML also with %YAML/%TAG directives and '...' on every document; N = {} documents), packets of all/7/100/5000 bytes, named and detected; a counting allocator samples the live heap at every read(): the peak over documents [N/2,3N/4) must not exceed the peak over [N/4,N/2) by more than one largest document, and the overall peak must stay under 8 MiB + 24 x largest document (a stream-sized footprint breaks this); the set of (live bytes, live blocks) states of the third quarter is compared with the second quarter's (closed = lasso, reported).", if thorough { 2 } else { 1 }, n),
+		rule: format!("lag: streams of 4-15 documents (8 B, 100 B, 5 KiB, 20 KiB, mixed; one document of every ladder size 2^k-1, 2^k, 2^k+1 around 4 KiB..64 KiB in first or second position among 8-byte documents) in JSON / MessagePack / YAML, source named and detected, every streaming target, 8 packetisations (1, 2, 3 documents per read; all-but-3-bytes; half documents; 7-byte, 100-byte and single-byte packets) and, for the small streams, every read schedule with <= {} deviation(s); a monitor runs at EVERY read() call: with j documents fully delivered, the complete translations of documents 1..j-2 must already have been handed to the writer. memory: streams generated on demand (period-P cycles of documents up to 20 KiB, YAML also with %YAML/%TAG directives and '...' on every document; N = {} documents), packets of all/7/100/5000 bytes, named and detected; a counting allocator samples the live heap at every read(): the peak over documents [N/2,3N/4) must not exceed the peak over [N/4,N/2) by more than one largest document, and the overall peak must stay under 8 MiB + 24 x largest document (a stream-sized footprint breaks this); the set of (live bytes, live blocks) states of the third quarter is compared with the second quarter's (closed = lasso, reported).", if thorough { 2 } else { 1 }, n),
 		exhaustive: true,
 		bounds: json!({"deviations": if thorough { 2 } else { 1 }, "stream_documents": n}),
 		assumptions: vec![
